@@ -1,13 +1,13 @@
-package c04
+package c04x
 
 import (
 	"testing"
 
 	"verif/sim/kernel"
-	"verif/sim/rigs/c04rig"
+	"verif/sim/rigs/c04cluster"
 )
 
-func init() { kernel.Register(c04rig.Rig()) }
+func init() { kernel.Register(c04cluster.Standalone()) }
 
 func TestMain(m *testing.M) { kernel.Main(m, "C04") }
 func TestSim(t *testing.T)  { kernel.Worker(t, "C04") }
